@@ -50,7 +50,7 @@ func exploreAutomaton(base *Run, maxStates int) *Run {
 			go func(i int, pre []byte) {
 				defer wg.Done()
 				defer func() { <-sem }()
-				r := &Run{Env: base.Env, Harness: base.Harness, Params: base.Params, PBytes: map[string][]byte{"prefix": pre},
+				r := &Run{Env: base.Env, Harness: base.Harness, Params: base.Params, IsKnown: base.IsKnown, PBytes: map[string][]byte{"prefix": pre},
 					Fuel: base.Fuel, Workers: perRun, Quiet: true, PanicIsOK: base.PanicIsOK, MergeOff: base.MergeOff,
 					DiffEvery: base.DiffEvery, MaxPaths: base.MaxPaths}
 				r.Explore()
@@ -176,7 +176,7 @@ func exploreCorpusLoop(base *Run, kind string) *Run {
 				params[k] = v
 			}
 			params["case"] = i
-			r := &Run{Env: base.Env, Harness: base.Harness, Params: params, Fuel: base.Fuel, Workers: 2, Quiet: true,
+			r := &Run{Env: base.Env, Harness: base.Harness, Params: params, IsKnown: base.IsKnown, Fuel: base.Fuel, Workers: 2, Quiet: true,
 				PanicIsOK: base.PanicIsOK, MergeOff: base.MergeOff, DiffEvery: base.DiffEvery, MaxPaths: base.MaxPaths}
 			r.Explore()
 			runs[i] = r
